@@ -1,8 +1,11 @@
 #!/bin/bash
-# usage: trymut.sh <ID> <patch> [extra check args]  — apply a mutant to a scratch worktree and run the check on it
-id=$1; patch=$2; shift 2
+# usage: trymut.sh <ID> <patch> "<repo pkgs for own tests>"
+id=$1; patch=$2; pkgs=$3
+export GOFLAGS=-mod=mod GOPROXY=off GOSUMDB=off GOTOOLCHAIN=local CGO_ENABLED=1
+GO=/root/go/pkg/mod/golang.org/toolchain@v0.0.1-go1.26.0.linux-amd64/bin/go
 d=$(mktemp -d /var/tmp/mut.XXXX); git -C /repo worktree add --detach $d -f >/dev/null 2>&1
 git -C $d apply $patch || { echo APPLY-FAILED; git -C /repo worktree remove --force $d; exit 9; }
-cd /verif && ./check $id --repo $d --procs 4 "$@" 2>&1 | grep -E "VIOLATION|INCONCLUSIVE|quick:|thorough:" | cut -c1-300 | head -12; rc=${PIPESTATUS[0]}
-echo "rc=$rc ($patch)"
+echo "== $patch"
+(cd $d && $GO test -vet=off -timeout 300s $pkgs 2>&1 | grep -E "^(ok|FAIL|---)" | head -8)
+(cd /verif && ./check $id --repo $d --procs 4 2>&1 | grep -E "VIOLATION|INCONCLUSIVE|quick:" | cut -c1-220 | head -12; echo "rc=${PIPESTATUS[0]}")
 git -C /repo worktree remove --force $d
